@@ -50,7 +50,8 @@ Section M.
                         else logev (open_cb d w0) (ERet (w_c (open_cb d w0)))) by reflexivity.
       destruct (w_err (open_cb d w0)) eqn:X; [left; rewrite S1; exact X|].
       rewrite S1 in Hop |- *.
-      apply J_ret. apply (first_open_J d user cs_size WF w0 (init_HIb d user cs_size buf oracle Hf Ho)); auto. }
+      apply J_ret. apply (first_open_J d user cs_size WF w0 (init_HIb d user cs_size buf oracle Hf Ho)); auto.
+      split; intros _; reflexivity. }
     rewrite Ew in He.
     destruct (history_J d user cs_size WF h w1 [] J1 Hc Hb He) as (ds & O & [X|(K & cur & H & F)]); [congruence|].
     exists ds, K, cur. rewrite Ew. auto.
@@ -71,7 +72,7 @@ Section M.
     destruct (history_main buf oracle h Hf Ho Hc Hop Hb He) as (ds & K & cur & O & H & F).
     exists ds. split; [exact O|].
     destruct H as (_ & _ & _ & _ & _ & H6 & _ & _ & _ & _ & H11).
-    fold w in H11, H6. rewrite Hcl in H11. destruct H11 as [-> _]. rewrite app_nil_r in F.
+    fold w in H11, H6. rewrite Hcl in H11. destruct H11 as (-> & _). rewrite app_nil_r in F.
     rewrite <- F. apply read_all_ok. exact H6.
   Qed.
 
@@ -90,6 +91,29 @@ Section M.
     intros Hf Ho Hc w0 w1 Hop Hb w He.
     destruct (history_main buf oracle h Hf Ho Hc Hop Hb He) as (ds & K & cur & O & H & F).
     exists K. unfold History.HI in H. tauto.
+  Qed.
+
+  (* C05 on the decoded packets: the beginning / end timestamps in the specification of the i-th
+     packet handed over are the i-th values written as packet beginning / end timestamps (ghost
+     events ETs 0 / ETs 1, about which Tracer/TimeProofs.v proves: each is the latest clock sample,
+     non-decreasing in writing order) *)
+  Theorem history_stamps buf oracle h :
+    fits cs_size (8 * buf) -> or_ok cs_size oracle -> Forall (call_ok d) h ->
+    let w0 := mk_w (init_ctx buf) oracle 0%Z [] false user in
+    let w1 := step d w0 COpen in
+    c_open (w_c w1) = true -> inb_run d w1 h ->
+    let w := run d buf user oracle (COpen :: h) in
+    w_err w = false -> c_open (w_c w) = false ->
+    exists K, Forall2 (pkt_ok d user) (pkts (obs (w_log w))) K /\
+              (has_tsb d = true -> map k_tsb K = stamps_of 0 (w_log w)) /\
+              (has_tse d = true -> map k_tse K = stamps_of 1 (w_log w)).
+  Proof.
+    intros Hf Ho Hc w0 w1 Hop Hb w He Hcl.
+    destruct (history_main buf oracle h Hf Ho Hc Hop Hb He) as (ds & K & cur & O & H & F).
+    exists K. destruct H as (_ & _ & _ & _ & _ & H6 & _ & _ & _ & _ & H11).
+    fold w in H11, H6. rewrite Hcl in H11. destruct H11 as (_ & _ & T1 & T2).
+    split; [exact H6|]. unfold obs in T1, T2. rewrite !stamps_of_obs in * by lia.
+    split; intros Hh; [rewrite (T1 Hh), app_nil_r|rewrite (T2 Hh)]; reflexivity.
   Qed.
 End M.
 
